@@ -458,8 +458,9 @@ class FKF:
         Q = np.zeros((num_samples, 4))
         # Initial quaternion from the accelerometer and magnetometer
         Q[0] = ecompass(acc[0], mag[0], frame='NED', representation='quaternion')
+        q = Q[0]
         for t in range(1, num_samples):
-            q_ = Q[t-1]                                             # Previous quaternion
+            q_ = q                                                  # Previous (unnormalized) state
             # PROCESS MODEL
             omega4 = self.Omega4(gyr[t])                            # Skew symmetric matrix (eq. 20)
             Phi = np.identity(4) + 0.5 * self.Dt * omega4           # State transition matrix (eq. 21)
@@ -473,5 +474,5 @@ class FKF:
             Sigma_v = J @ Sigma_am @ J.transpose()                  # Measurement quaternion's covariance (eq. 26)
             # Kalman Update
             q, self.Pk = self.kalman_update(q_, qy, self.Pk, Phi, Sigma_eps, Sigma_v)
-            Q[t] = q
+            Q[t] = q / np.linalg.norm(q)                            # Reported attitude is a versor
         return Q
